@@ -84,3 +84,11 @@ func VerifHostPortNoPort(u *url.URL) (string, string) { return hostPortNoPort(u)
 func VerifComputeAcceptKey(k string) string { return computeAcceptKey(k) }
 
 func VerifIsValidChallengeKey(k string) bool { return isValidChallengeKey(k) }
+
+// VerifPoolBuf peeks into a value the connection put into a BufferPool.
+func VerifPoolBuf(v interface{}) []byte {
+	if w, ok := v.(writePoolData); ok {
+		return w.buf
+	}
+	return nil
+}
